@@ -84,6 +84,16 @@ Theorem C18_message_stream : forall (ms : list msg) (bs chunks : list (list N)),
 Proof. exact message_stream. Qed.
 Print Assumptions C18_message_stream.
 
+(* ... and in server mode for the messages arriving on one socket, whatever the other sockets receive in between *)
+Theorem C18_server_message_stream : forall (k : nat) (evs : list (nat * list N)) (ms : list msg) (bs : list (list N)),
+  Forall2 (fun m b => to_str m = Some b) ms bs ->
+  concat (proj k evs) = concat bs ->
+  exists bodies, projl k (fst (run_srv empty_bufs evs)) = bodies /\
+                 snd (run_srv empty_bufs evs) k = [] /\
+                 Forall2 (fun b body => b = body ++ [13; 10] /\ clean body) bs bodies.
+Proof. exact server_message_stream. Qed.
+Print Assumptions C18_server_message_stream.
+
 (* non-vacuity *)
 Example C18_ex_stream :
   run [] [[49; 13]; [10; 50; 10; 13]; [51]] = ([[49]; [50]], [13; 51]).
